@@ -16,7 +16,11 @@ def funcs : List (String × String) := [
   ("internal/target/remote/connect.go:mxConn.Close", "a87c899a8b6f3ffb"),
   ("internal/target/remote/connect.go:mxConn.LastUseAt", "57d90aab20b0f7bb"),
   ("internal/target/remote/connect.go:mxConn.Usable", "ec8b3ccfb58bf1fd"),
-  ("internal/target/remote/connect.go:type mxConn", "0938ffdedf648f9d")
+  ("internal/target/remote/connect.go:remoteDelivery.connectionForDomain", "c9c06a28375d94f9"),
+  ("internal/target/remote/connect.go:type mxConn", "0938ffdedf648f9d"),
+  ("internal/target/remote/remote.go:Target.Close", "a42a23b96da6b8ed"),
+  ("internal/target/remote/remote.go:Target.Start", "2d14a5510b0e30d0"),
+  ("internal/target/remote/remote.go:remoteDelivery.Close", "bf9edcac4df593d2")
 ]
 
 end MaddyVerif.Expect.FuncSkelC19
